@@ -44,6 +44,8 @@ var scripts = [][][][]string{
 	{{{"u:a|s|#r:eu\nc:1|c|#r:eu\nt:1|ms|#r:eu"}, {"c:1|c|#r:us,z:1\nu:b|s|#q:1"}}, {{"u:c|s|#r:eu"}}},
 	// 5: a histogram-tagged timer over several flushes (its values, too, belong to exactly one flush)
 	{{{"th:5|ms|#gsd_histogram:1_10\nth:50|ms|#gsd_histogram:1_10"}, {"th:7|ms|#gsd_histogram:1_10\nt:1|ms"}}},
+	// 6: one driver, four single-line batches over names that spread over two aggregators
+	{{{"c:1|c"}, {"t:2|ms"}, {"d:1|c"}, {"c:2|c"}}},
 }
 
 type expect struct {
@@ -277,7 +279,7 @@ type replay struct {
 func configs() []config {
 	var cs []config
 	if vrt.Thorough() {
-		for _, s := range []int{0, 1, 2, 3, 4, 5} {
+		for _, s := range []int{0, 1, 2, 3, 4, 5, 6} {
 			for _, p := range []int{1, 2} {
 				for _, w := range []int{1, 2} {
 					for _, q := range []int{0, 1} {
@@ -296,6 +298,9 @@ func configs() []config {
 		{P: 2, W: 1, Q: 0, Script: 3, Ticks: 1},
 		{P: 1, W: 1, Q: 1, Script: 4, Ticks: 1},
 		{P: 1, W: 1, Q: 0, Script: 5, Ticks: 2},
+		// two aggregators and batches that concern only one of them (either one), with and without room in the queues
+		{P: 1, W: 2, Q: 0, Script: 3, Ticks: 1},
+		{P: 1, W: 2, Q: 1, Script: 6, Ticks: 1},
 	}
 }
 
